@@ -48,6 +48,7 @@ type RequestContext struct {
 	err             error
 
 	savedBody any
+	hmdlReq   *heimdall.Request
 	outputs   map[string]any
 }
 
@@ -91,16 +92,23 @@ func canonicalizeHeaders(headers map[string]string) map[string]string {
 }
 
 func (r *RequestContext) Request() *heimdall.Request {
-	return &heimdall.Request{
-		RequestFunctions:  r,
-		Method:            r.reqMethod,
-		URL:               &heimdall.URL{URL: *r.reqURL},
-		ClientIPAddresses: r.ips,
+	if r.hmdlReq == nil {
+		r.hmdlReq = &heimdall.Request{
+			RequestFunctions:  r,
+			Method:            r.reqMethod,
+			URL:               &heimdall.URL{URL: *r.reqURL},
+			ClientIPAddresses: r.ips,
+		}
 	}
+
+	return r.hmdlReq
 }
 
 func (r *RequestContext) Headers() map[string]string { return r.reqHeaders }
-func (r *RequestContext) Header(name string) string  { return r.reqHeaders[name] }
+
+func (r *RequestContext) Header(name string) string {
+	return r.reqHeaders[http.CanonicalHeaderKey(name)]
+}
 
 func (r *RequestContext) Cookie(name string) string {
 	values, ok := r.reqHeaders["Cookie"]
